@@ -4,7 +4,7 @@ import numpy as np
 from vlib import caseio, gen, runner
 
 ID = "C19"
-COQ_TARGETS = ["C19_Extract.vo", "C19_Proofs.vo"]
+COQ_TARGETS = ["C19_Extract.vo", "C19_Proofs.vo", "C19_Regress.vo"]
 EXTRACTED = "C19_model"
 DRIVER = "drv_C19.ml"
 HARNESS = "h_C19.cpp"
@@ -15,10 +15,10 @@ REQUIRED_THEOREMS = ["C19_range", "C19_congruent", "C19_shift_invariant", "C19_b
                      "C19_sub_congruent_to_difference", "C19_sub_shift_invariant", "C19_mean_is_arg_of_resultant",
                      "C19_mean_single_column", "C19_mean_shift", "C19_mean_rotation", "C19_mean_all_equal",
                      "C19_mean_all_equal_single_column", "C19_mean_in_arc", "C19_mean_rotation_matrix", "C19_mean_in_arc_matrix",
-                     "C19_mean_all_equal_matrix", "C19_mean_single_column_literal_refuted"]
+                     "C19_mean_all_equal_matrix", "C19_mean_single_column_weight_ignored_refuted"]
 RULE = ("cases from one seeded stream: add/sub with shapes 1..4 x 1..9 (a quarter up to 16 x 50, some 0 x k and k x 0), angles small / up to 1e6 / sums exactly +-pi (double) / sums "
-        "within 1e-12..1e-7 of +-pi, every entry of both arguments shifted by integer multiples of 2 pi (|k| up to 1e5); mean with 1..9 "
-        "columns (1 = returned as is), positive and unscented (negative central) weights, samples clustered (< half turn) / uniform / huge / "
+        "within 1e-12..1e-7 of +-pi, every entry of both arguments shifted by integer multiples of 2 pi (|k| up to 1e5); mean with 0..9 columns (a quarter up to 16 x 50; "
+        "1 column = the wrapped column, also with weight <= 0 and angles outside (-pi, pi], where the property's literal clauses are evaluated), positive and unscented (negative central) weights, samples clustered (< half turn) / uniform / huge / "
         "all equal / exactly +-pi, resultant length >= 1e-6, 2 pi shifts and a common rotation; non-trivial = every case except "
         "1x1 small-angle add/sub; distinct by (kind, rows, cols, angle flavour, weight flavour)")
 TRUSTED_BASE = ["Coq 8.16.1 kernel (coqc); the four real-number axioms of Coq's Reals (sig_forall_dec, sig_not_dec, functional_extensionality_dep, classic)",
@@ -27,13 +27,15 @@ TRUSTED_BASE = ["Coq 8.16.1 kernel (coqc); the four real-number axioms of Coq's 
                 "cpp/h_C19.cpp harness; tolerances 1e-9 + 4 eps (|inputs|) (add/sub), 1e-9 + 4 eps cols cond (mean, cond = sum|w| / |resultant|; summation order only, both sides get identical inputs)",
                 "correspondence is sampled: agreement is established on the generated cases only",
                 "IEEE rounding is not modelled: theorems are over R; on doubles the half-turn boundary is the double nearest pi, which lies strictly inside (-pi, pi]"]
-ASSUMPTIONS = ["std::exp(std::complex) = (exp(re) cos(im), exp(re) sin(im)) and std::arg(z) = atan2(imag, real) (C++ standard; checked against libm through the model on every case)"]
+ASSUMPTIONS = ["a single column with a weight <= 0 is outside the property's quantifier (weights are positive, or unscented sets of >= 3 points): there directional_mean ignores "
+               "the weight (C19_mean_single_column_weight_ignored_refuted); such inputs are generated and compared with the model only, the oracle does not judge them",
+               "std::exp(std::complex) = (exp(re) cos(im), exp(re) sin(im)) and std::arg(z) = atan2(imag, real) (C++ standard; checked against libm through the model on every case)"]
 
 COUNTS = {"quick": 600, "thorough": 40000}
 PI = math.pi
 TWO_PI = 2.0 * math.pi
 EPS = 2.220446049250313e-16
-STATS = {"near_boundary_skipped": 0, "direct_compared": 0, "empty_results": 0}
+STATS = {"near_boundary_skipped": 0, "direct_compared": 0, "empty_results": 0, "single_column_nonpositive_weight": 0}
 
 
 # ------------------------------------------------------------------ helpers
@@ -146,7 +148,7 @@ def gen_mean(rng, k, forced=None):
                 w = w / w.sum() if rng.random() < 0.8 else w * rng.uniform(0.1, 5.0)
             cfac = None
             if c == 1 and rng.random() < 0.4:
-                # one column: the branch that returns the column as is; weight <= 0 is outside the property's weight classes
+                # one column: the branch that returns the wrapped column; weight <= 0 is outside the property's weight classes
                 wkind = "single_nonpositive"
                 w = np.array([rng.choice([0.0, -1.0, -rng.uniform(1e-3, 3.0)])])
         else:
@@ -248,7 +250,8 @@ def corpus(k0):
 
 
 def generate(rng, tier):
-    STATS["near_boundary_skipped"] = 0; STATS["direct_compared"] = 0
+    for key in STATS:
+        STATS[key] = 0
     cases = corpus(0)
     n = COUNTS[tier]
     while len(cases) < n:
@@ -313,11 +316,7 @@ def compare(c, impl, model):
         for f in ("res", "res2", "res3"):
             if not impl.has(f) or not model.has(f):
                 diffs.append("%s missing" % f); continue
-            if single and impl.get(f).shape[0] > 0:      # returned as is: bit-for-bit
-                if not caseio.close(impl.get(f), model.get(f), 0, 0):
-                    diffs.append("%s: single column not returned as is (impl %s, model %s)" % (f, impl.get(f).ravel()[:3], model.get(f).ravel()[:3]))
-            else:
-                circ_compare(f, impl.get(f), model.get(f), t, diffs)
+            circ_compare(f, impl.get(f), model.get(f), t, diffs)
     return diffs
 
 
@@ -410,7 +409,9 @@ def oracle(c, impl, model):
                 if w0 > 0:
                     v.append(("C19:mean:single-column:not-arg-of-resultant", "row %d: %r returned for the single sample %r; the argument of the resultant is %r" % (i, float(res[i]), float(a[i, 0]), float(spec[i]))))
                 else:
-                    v.append(("C19:mean:single-column:weight-ignored", "row %d: %r returned for the single sample %r with weight %r; the argument of the resultant is %r" % (i, float(res[i]), float(a[i, 0]), w0, float(spec[i]))))
+                    # one column with a weight <= 0 is outside the property's quantifier (positive weights, or unscented
+                    # sets of >= 3 points): the weight is ignored by design; correspondence only
+                    STATS["single_column_nonpositive_weight"] += 1
             r2 = impl.get("res2")
             if w0 > 0 and r2 is not None and r2.shape == (r, 1):
                 d = np.abs(r2.ravel() - res)
@@ -472,17 +473,19 @@ def histogram(cases):
     for c in cases:
         for key, val in (("kind", c.kind), ("flavour", c.meta["flavour"]), ("weights", c.meta.get("weights", "-")), ("cols", c.meta["cols"])):
             h[key][str(val)] = h[key].get(str(val), 0) + 1
-    h["near_boundary_skipped"] = STATS["near_boundary_skipped"]
-    h["entries_compared_directly"] = STATS["direct_compared"]
+    h.update(STATS)
     return h
 
 
 LEVEL_TEXT = ("Proof: the model of directional_add/sub/mean (arg(exp(j x)) written against the scalar interface) is proved over Coq's reals, with atan2 "
               "defined from atan and its polar-form contract proved, to return values in (-pi, pi] congruent to the ordinary sum/difference, invariant "
               "under 2 pi shifts of every entry of every argument; the mean is the argument of the weighted resultant, shift invariant, rotates with a "
-              "common rotation when the resultant is non-zero, returns wrap(a) for equal samples (a itself in the one-column branch, which returns the "
-              "column as is), and lies in the samples' arc for positive weights and arcs shorter than a half turn. Tied to the code by running the "
+              "common rotation when the resultant is non-zero, returns wrap(a) for equal samples (also in the one-column branch, which returns the "
+              "wrapped column), and lies in the samples' arc for positive weights and arcs shorter than a half turn. Tied to the code by running the "
               "extracted model and the library on the same generated cases.")
 LEVEL_NOTE = ("Trusted: Coq kernel + the 4 real-number axioms, extraction + float driver (libm), harness and tolerances; rounding is not modelled. "
-              "The one-column branch of directional_mean returns the sample unwrapped: this meets 'returns a' literally and 'argument of the resultant' only modulo 2 pi "
-              "(and only for a positive weight); it is judged modulo 2 pi. The tie to the code is sampled.")
+              "The one-column branch of directional_mean returns the wrapped column: for a positive weight this is exactly the argument of the resultant and it is shift invariant "
+              "(C19_mean_all_equal_single_column, C19_mean_shift_single_column); the weight itself is ignored there, which matters only for weights <= 0, outside the property's quantifier "
+              "(compared with the model only). The pre-fix behaviour (column returned as is) and its refutation are kept in coq/C19_Regress.v; the oracle clauses "
+              "C19:mean:single-column:not-arg-of-resultant / :shift-changes-result catch its reintroduction. A matrix without rows has no width in the list-of-rows model "
+              "(compared as empty). The tie to the code is sampled.")
